@@ -260,6 +260,8 @@ def test_facts(repo, func, expr, pol):
                 facts["alive_any"] = val
             elif hk["kind"] == "exit_all_zero":
                 facts["exit_all_zero"] = val
+            elif hk["kind"] == "dead_any" and val is False:
+                facts["alive_any"] = True  # nobody is dead: (for a non-empty group) somebody is alive
     return facts
 
 
